@@ -10,3 +10,11 @@ func netParseIP(s string) []byte {
 	}
 	return []byte(ip)
 }
+
+func netParseCIDR(s string) (ip, nip, mask []byte, err error) {
+	i, n, e := net.ParseCIDR(s)
+	if e != nil {
+		return nil, nil, nil, e
+	}
+	return []byte(i), []byte(n.IP), []byte(n.Mask), nil
+}
